@@ -75,8 +75,8 @@ class FuncScan(ast.NodeVisitor):
         if isinstance(e, ast.Call):
             f = e.func
             name = f.id if isinstance(f, ast.Name) else f.attr if isinstance(f, ast.Attribute) else None
-            if name in FRESH_CALLS:
-                return True
+            if name in FRESH_CALLS and not (name in ("array", "astype") and any(k.arg == "copy" and not (isinstance(k.value, ast.Constant) and k.value.value is True) for k in e.keywords)):
+                return True  # (np.array(x, copy=False) / x.astype(t, copy=False) may return x itself: handled like a view below)
             if name in VIEW_FUNCS:
                 return False
             # method call on a fresh local returns something not aliasing parameters only if no alias argument flows in
